@@ -287,10 +287,19 @@ def wrap_phase(IP, ncycles=1, mode='2pi'):
     if mode not in ['2pi', '-pi2pi']:
         raise ValueError("Invalid mode value")
 
+    period = ncycles * 2 * np.pi
+
     if mode == '2pi':
-        phases = (IP) % (ncycles * 2 * np.pi)
+        phases = (IP) % period
     elif mode == '-pi2pi':
-        phases = (IP + (np.pi * ncycles)) % (ncycles * 2 * np.pi) - (np.pi * ncycles)
+        phases = (IP + (np.pi * ncycles)) % period
+
+    # The floating point remainder of a tiny negative value rounds up to the
+    # period itself - that is phase zero, so keep the result in [0, period)
+    phases = phases - period * (phases >= period)
+
+    if mode == '-pi2pi':
+        phases = phases - (np.pi * ncycles)
 
     return phases
 
